@@ -157,6 +157,10 @@ func runC12(c *Ctx) {
 							for _, wb := range firstN(ws[j], 8) {
 								args := append([]cty.Value(nil), base...)
 								args[i], args[j] = wa.V, wb.V
+								tag = ""
+								if base[i].IsNull() || base[j].IsNull() {
+									tag = "null-weakened: " // as above: a replaced argument is a null
+								}
 								try(args, fmt.Sprintf("arg%d %s; arg%d %s", i, wa.Desc, j, wb.Desc))
 							}
 						}
